@@ -121,7 +121,7 @@ func c08AfterHedgedRound(rep *vk.Report, idx int) {
 		rep.Violate(idx, "C08/wrong-result-after-hedged-round", fmt.Sprintf("Retry(Hedge(%s(fn))): first round hedged (%d hedges started) and failed, cancellation (%s) arrived in the 3s retry delay: caller received %v, want %v (took %v)", inner, hedges, source, err, want, took), cs)
 		return
 	}
-	if took >= c08LongDelay {
+	if took >= c08LongDelay && vk.StalledBetween(t0, t0.Add(took)) < 250*time.Millisecond {
 		rep.Violate(idx, "C08/waited-out", fmt.Sprintf("Retry(Hedge(fn)) cancelled (%s) in the 3s retry delay after a hedged round completed only after %v", source, took), cs)
 		return
 	}
